@@ -103,7 +103,7 @@ def case_line(case, with_e=True):
             fl += "E"
         ds = ",".join("%s%d" % (kd, t) if kd != "r" else "r%d.%d" % (t, u) for (kd, t, u) in m["decls"])
         parts.append("%s:%s" % (fl or "-", ds))
-    return ";".join(parts) + " | " + ",".join("L%d" % e for e in case["ops"])
+    return ";".join(parts) + " | " + ",".join(("L%d" % e) if isinstance(e, int) else e for e in case["ops"])
 
 
 def parse_line(line):
@@ -122,7 +122,8 @@ def parse_line(line):
             else:
                 decls.append((d[0], int(d[1:]), 0))
         mods.append({"flags": fl.strip().replace("E", "").replace("-", ""), "decls": decls})
-    return {"mods": mods, "ops": [int(o.strip()[1:]) for o in ops.split(",") if o.strip()]}
+    opl = [o.strip() for o in ops.split(",") if o.strip()]
+    return {"mods": mods, "ops": [int(o[1:]) if o[0] == "L" else o for o in opl]}
 
 
 # ------------------------------------------------------------------------------------------------
@@ -258,3 +259,49 @@ def random_case(rng, nmax=8, profile=None):
     if rng.random() < 0.3:
         ops = ops[: rng.randrange(1, len(ops) + 1)]
     return decorate(rng, shape, PROFILES[pname], ops), pname
+
+
+# ------------------------------------------------------------------------------------------------
+# evaluations that stay pending across Evaluate() calls: ops P<k> (load + drain), E<k> (link + evaluate, no drain), J (drain)
+
+def pending_case(rng):
+    """x (top-level await) <- t1 ; a synchronous graph s ; t2 imports x and t1 (and more); E t1, E s, E t2, J in varying orders."""
+    n = rng.choice([4, 4, 5, 6, 7])
+    mods = [{"flags": rng.choice(["a", "aa", "p", "ap"]), "decls": []},                       # 0: x
+            {"flags": rng.choice(["", "", "a"]), "decls": [(rng.choice("ns"), 0, 0)]},        # 1: t1
+            {"flags": "", "decls": []},                                                        # 2: s (synchronous graph)
+            {"flags": rng.choice(["", "", "a"]), "decls": []}]                                 # 3: t2
+    d3 = [(rng.choice("ns"), 0, 0), (rng.choice("ns"), 1, 0)]
+    rng.shuffle(d3)
+    mods[3]["decls"] = d3
+    for k in range(4, n):
+        fl = rng.choice(["", "", "a", "p"])
+        decls = []
+        if rng.random() < 0.6:
+            decls.append((rng.choice("ns"), rng.choice([0, 1]), 0))
+        if k > 4 and rng.random() < 0.4:
+            decls.append((rng.choice("ins"), rng.randrange(4, k), 0))
+        mods.append({"flags": fl, "decls": decls})
+        who = rng.choice([1, 3, 3, 2]) if not decls and not fl else rng.choice([1, 3, 3])
+        mods[who]["decls"].insert(rng.randrange(len(mods[who]["decls"]) + 1), (rng.choice("ns"), k, 0))
+    if rng.random() < 0.15:
+        mods[rng.choice([1, 3])]["flags"] += "t"
+    if rng.random() < 0.2:                      # a cycle through t1
+        mods[0 if rng.random() < 0.3 else 1]["decls"].append((rng.choice("ns"), 3 if rng.random() < 0.5 else 1, 0))
+    entries = [1, 2, 3]
+    style = rng.random()
+    if style < 0.5:
+        order = ["E1", "E2", "E3", "J"]
+    elif style < 0.65:
+        order = ["E1", "E3", "J"]
+    elif style < 0.8:
+        order = ["E3", "E2", "E1", "J"]
+    elif style < 0.9:
+        order = ["E1", "J", "E2", "E3", "J"]
+    else:
+        order = ["E1", "E2", "E3", "E1", "J", "E3"]
+    extra = [k for k in range(4, n) if rng.random() < 0.3]
+    ops = ["P%d" % e for e in entries + extra] + order[:1] + ["E%d" % e for e in extra] + order[1:]
+    if rng.random() < 0.3:
+        ops += [rng.choice([1, 3])]
+    return {"mods": mods, "ops": ops}
